@@ -1073,13 +1073,19 @@ func compareRedeem(body []byte, s *sessions.SessionState, sentAt time.Time, elap
 		return []string{"body-not-json"}
 	}
 	var bad []string
-	if rb.Email == nil || *rb.Email != s.Email {
+	val := func(p *string) string { // an absent key and an empty string both say "empty"
+		if p == nil {
+			return ""
+		}
+		return *p
+	}
+	if val(rb.Email) != s.Email {
 		bad = append(bad, "email")
 	}
-	if rb.AccessToken == nil || *rb.AccessToken != s.AccessToken {
+	if val(rb.AccessToken) != s.AccessToken {
 		bad = append(bad, "access_token")
 	}
-	if rb.RefreshToken == nil || *rb.RefreshToken != s.RefreshToken {
+	if val(rb.RefreshToken) != s.RefreshToken {
 		bad = append(bad, "refresh_token")
 	}
 	if checkExpiry {
